@@ -61,29 +61,34 @@ def alu : Handler := fun j => do
   let op ← streamOpOf (← field j "op")
   return result (aluFields cfg) (aluVals cfg op)
 
-/-- args: {"cfg", "n", "fixed", "op": streamop, "kernel": ["mac", null | [a,b]] | ["rescale", r] | ["other"],
-"i8out": bool, "post": null | r} -/
+def gkernelOf (j : Json) : Except String GKernel := do
+  match (← arr j).toList with
+  | [t, x] => do
+    match (← str t) with
+    | "mac" => do
+      let zp ← optOf (fun y => do
+        match (← arr y).toList with
+        | [a, b] => pure ((← nat a), (← nat b))
+        | _ => throw "bad zp") x
+      pure (GKernel.mac zp)
+    | "rescale" => pure (GKernel.rescale (← rescaleOf x))
+    | s => throw s!"bad kernel {s}"
+  | [t] =>
+    match (← str t) with
+    | "other" => pure GKernel.other
+    | "add" => pure GKernel.other         -- bias add: not a kernel the first-generic dispatch knows
+    | s => throw s!"bad kernel {s}"
+  | _ => throw "bad kernel"
+
+/-- args: {"cfg", "n", "fixed", "op": streamop, "generics": [["mac", null | [a,b]] | ["rescale", r] | ["add"] |
+["other"]], "i8out": bool} -/
 def gemmx : Handler := fun j => do
   let cfg ← listOf streamerOf (← field j "cfg")
   let n ← nat (← field j "n")
   let v ← variantOf j
   let s ← streamOpOf (← field j "op")
-  let kj ← arr (← field j "kernel")
-  let kernel ← match kj.toList with
-    | [t, x] => do
-      match (← str t) with
-      | "mac" => do
-        let zp ← optOf (fun y => do
-          match (← arr y).toList with
-          | [a, b] => pure ((← nat a), (← nat b))
-          | _ => throw "bad zp") x
-        pure (GKernel.mac zp)
-      | "rescale" => pure (GKernel.rescale (← rescaleOf x))
-      | s => throw s!"bad kernel {s}"
-    | [t] => if (← str t) == "other" then pure GKernel.other else throw "bad kernel"
-    | _ => throw "bad kernel"
-  let op : GemmxOp := { s := s, kernel := kernel, i8out := ← bool (← field j "i8out"),
-                        post := ← optOf rescaleOf (← field j "post") }
+  let op : GemmxOp := { s := s, generics := ← listOf gkernelOf (← field j "generics"),
+                        i8out := ← bool (← field j "i8out") }
   return result (gemmxFields cfg n) (gemmxVals v cfg n op)
 
 /-- args: {"cfg", "fixed", "op": streamop, "kernel": ["notgeneric"] | ["add"] | ["other"] |
